@@ -20,7 +20,7 @@ import corpus
 import drive_calls as DC
 
 SPEC = common.SPEC
-OPS = {"id": ["id"], "elementwise": ["add", "less"], "reduce": ["sum", "max"], "dot": ["dot"], "preserve": ["flip", "softmax", "sort"],
+OPS = {"id": ["id"], "elementwise": ["add", "less"], "reduce": ["sum", "max"], "dot": ["dot"], "preserve": ["flip", "softmax", "sort", "roll@4", "roll@6"],       # roll with shifts that are multiples of some base lengths (2, 3) but not of the derived ones
        "argfind": ["argmax"], "get_at": ["get_at"], "update_at": ["add_at", "set_at"]}
 FACT = [2, 3, 5, 7, 16]
 
@@ -117,6 +117,8 @@ def graph_of(case, op, L2, backend):
             ins.append(np.broadcast_to(np.zeros((), dtype=np.float64), sh))
     sizes = {n: int(v) for n, v in L2.items() if n in set(case["desc"])}
     kw = {"shift": 1} if op == "roll" else {}
+    if op.startswith("roll@"):
+        op, kw = "roll", {"shift": int(op.split("@")[1])}
     with warnings.catch_warnings():
         warnings.simplefilter("ignore")
         return getattr(einx, op)(DC.desc_of(case), *ins, backend=backend, graph=True, **sizes, **kw)
